@@ -284,6 +284,22 @@ reg(
     "DESIGN.md section 4 C17",
 )
 
+reg(
+    "C03",
+    "The documented root-of-trust constructions (cert_block_1, cert_block_21, srk_table_hab, srk_table_ahab, srk_table_ahab_v2) and both certificate-block layouts "
+    "as symbolic terms in TLA+ (Rot.tla: lengths and layout decided in TLC, a Sig node over exactly root-key record + ISK header + ISK public key + user data) plus a "
+    "state machine (Compute, WriteFile / ReadByPath, Build / Export / Parse / SetUserData / SetConstraints / SetImageLength); TLC enumerates key-set shapes x orders x "
+    "used index x encodings x tool paths and histories of cert blocks and rewritten key files, checks the term lemmas (independence of path / used index / encoding, order "
+    "and key sensitivity, single-key v2.1, table lengths) and emits every case with its term; Python evaluates the terms independently and drives every real path; TLC "
+    "(RotTrace) recomputes each term and decides every observation",
+    "The state machine is model-checked (the signature-caching variant must be refuted); case space and histories are enumerated by TLC; 6.5k (quick) / 49k "
+    "(thorough) real executions are trace-validated against the R-spec; a canary and 15 golden anchors (incl. a frozen family -> rot-type table) run in every execution.",
+    "Trusted: hashlib SHA-2, cryptography key / certificate loading and ECDSA verification called directly, an own DER length reader and v1 walker, TLC. Hash contents "
+    "are evaluated outside TLA+; TLC decides structure, lengths, equality with the evaluated term and the logged facts. RSA moduli have full length, e = 65537. The "
+    "stale ISK signature after a field change is a registered known finding (re-signing policy is a design decision).",
+    "DESIGN.md section 4 C03",
+)
+
 NOT_YET = {
 }
 
